@@ -130,7 +130,15 @@ STATEFUL = [
     ("0 + g:center(z) + x", [("g", "z_c"), ("x",)], False), ("0 + center(x)", [("x_c",)], False), ("scale(x) + f", [("x",), ("f",)], True),
     ("0 + poly(x, 2) + g:z", [("x_p1",), ("x_p2",), ("g", "z")], False), ("0 + f:center(x) + center(z)", [("f", "x_c"), ("z_c",)], False),
 ]
-KINDS2 = dict(KINDS, x_s="num", x_c="num", z_c="num", x_p1="num", x_p2="num")
+STATEFUL += [   # calls of one user function that differ only in a keyword value / in one positional value are different columns
+    ("0 + pw(x, p=2) + pw(x, p=3)", [("x_q2",), ("x_q3",)], False), ("0 + f:pw(x, p=2) + f:pw(x, p=3)", [("f", "x_q2"), ("f", "x_q3")], False),
+    ("0 + pw(x, 2) + pw(x, 3)", [("x_q2",), ("x_q3",)], False), ("pw(x, p=2):g + pw(x, p=3)", [("x_q2", "g"), ("x_q3",)], True),
+]
+KINDS2 = dict(KINDS, x_s="num", x_c="num", z_c="num", x_p1="num", x_p2="num", x_q2="num", x_q3="num")
+
+
+def pw(v, p=1):
+    return v ** p
 
 
 def _derived(d):
@@ -140,6 +148,8 @@ def _derived(d):
     e["z_c"] = d["z"] - d["z"].mean()
     e["x_p1"] = d["x"] - d["x"].mean()                          # orthogonal polynomials of degree 1, 2 span the centred x, x^2
     e["x_p2"] = d["x"] ** 2 - (d["x"] ** 2).mean()
+    e["x_q2"] = d["x"] ** 2
+    e["x_q3"] = d["x"] ** 3
     return e
 
 
@@ -204,11 +214,14 @@ def PROOFS():
     """The per-factor part of the coding under contract: a factor evaluated with spans_intercept gets the full indicator
     coding, otherwise the reduced one, chosen afresh at every evaluation (the redundancy analysis of contrasts.py that decides
     spans_intercept per term is NOT under contract: bounded tier only)."""
-    from ..contracts import categorical_c, variable_c, utils_c, matrices_c  # noqa: F401
+    from ..contracts import categorical_c, variable_c, utils_c, matrices_c, call_resolver_c  # noqa: F401
     return [("vf.contracts.categorical_c", categorical_c.FUNCTIONS),
             # columns of an interaction are the pairwise products; the matrix is the terms' blocks side by side, one term per name
             ("vf.contracts.utils_c", utils_c.FUNCTIONS),
             ("vf.contracts.matrices_c", ["formulae.matrices.CommonEffectsMatrix.__init__", "formulae.matrices.CommonEffectsMatrix.evaluate"]),
+            # which columns exist at all: two call terms are one term only if callee, arguments and keyword VALUES are equal
+            ("vf.contracts.call_resolver_c", ["formulae.terms.call_resolver." + c for c in (
+                "LazyCall.__eq__", "LazyOperator.__eq__", "LazyValue.__eq__", "LazyVariable.__eq__", "LazyCall.__eq__#other", "LazyOperator.__eq__#other")]),
             ("vf.contracts.variable_c", ["formulae.terms.variable.Variable.eval_categoric", "formulae.terms.call.Call.eval_categoric"])]
 
 
